@@ -560,9 +560,95 @@ fn check_assign<F: Float, D: Distance<F>, S: Data<Elem = F>>(
             return;
         }
     };
+    // The calling-form and stale-buffer repetitions exercise code paths that do not depend on which
+    // fit produced the model: on training rows they run for the first fit of a ladder only (budget 1,
+    // first restart, n_runs <= 2), on new points always.
+    let first_of_ladder = at.get("budget").map_or(true, |b| b.as_u64() == Some(1))
+        && at.get("restart_alone").map_or(true, |r| r.as_u64() == Some(1))
+        && at.get("n_runs").map_or(true, |r| r.as_u64().map_or(true, |r| r <= 2));
+    let extra_forms = which != "training" || first_of_ladder;
+    // ---- the other calling forms of predict (blanket impls of linfa): owned array, owned dataset,
+    // &dataset, dataset over an owned copy and its view
+    if extra_forms {
+        let same_records = |r: &ArrayView2<F>| r.dim() == points.dim() && r.iter().zip(points.iter()).all(|(a, b)| to_f64(*a).to_bits() == to_f64(*b).to_bits());
+        let mut forms: Vec<(&str, Result<(Vec<usize>, bool), String>)> = Vec::new();
+        forms.push(("owned_array_view", guarded(|| {
+            let ds = model.predict(points.view());
+            (ds.targets().to_vec(), same_records(&ds.records().view()))
+        })));
+        forms.push(("owned_dataset", guarded(|| {
+            let ds = model.predict(DatasetBase::from(points.view()));
+            (ds.targets().to_vec(), same_records(&ds.records().view()))
+        })));
+        forms.push(("dataset_reference", guarded(|| {
+            let ds = DatasetBase::from(points.view());
+            let t: Array1<usize> = model.predict(&ds);
+            (t.to_vec(), true)
+        })));
+        forms.push(("owned_dataset_of_owned_copy", guarded(|| {
+            let ds = model.predict(DatasetBase::from(points.to_owned()));
+            (ds.targets().to_vec(), same_records(&ds.records().view()))
+        })));
+        forms.push(("reference_to_view_of_dataset", guarded(|| {
+            let ds = DatasetBase::from(points.to_owned());
+            let v = ds.view();
+            let t: Array1<usize> = model.predict(&v);
+            (t.to_vec(), true)
+        })));
+        for (form, r) in forms {
+            cnt.add("predict_calling_form_evaluations", 1);
+            match r {
+                Err(p) => viols.push(Violation::new(
+                    "kmeans.predict.panic",
+                    format!("predict ({}) on {} {} points panicked: {}", form, np, which, p),
+                    at2(json!({"form": form})),
+                )),
+                Ok((labels, recs_ok)) => {
+                    if labels != batch.to_vec() || !recs_ok {
+                        viols.push(Violation::new(
+                            "kmeans.predict.calling_form_dependence",
+                            format!(
+                                "predict through the {} form on {} points gives {:?}{}, predict(&array) gives {:?}",
+                                form,
+                                which,
+                                labels,
+                                if recs_ok { "" } else { " and does not hand back the records it was given" },
+                                batch.to_vec()
+                            ),
+                            at2(json!({"form": form})),
+                        ));
+                    }
+                }
+            }
+        }
+    }
+    // ---- one-row batches through every calling form (a batch of one is not the single-observation form)
+    if which == "new" {
+        for i in 0..batch.len() {
+            let one = points.slice(s![i..i + 1, ..]);
+            let want = batch[i];
+            let got: Vec<(&str, Result<Vec<usize>, String>)> = vec![
+                ("array_reference", guarded(|| { let t: Array1<usize> = model.predict(&one); t.to_vec() })),
+                ("owned_array_view", guarded(|| model.predict(one.view()).targets().to_vec())),
+                ("owned_dataset", guarded(|| model.predict(DatasetBase::from(one.view())).targets().to_vec())),
+                ("dataset_reference", guarded(|| { let ds = DatasetBase::from(one.view()); let t: Array1<usize> = model.predict(&ds); t.to_vec() })),
+                ("predict_inplace_poisoned", guarded(|| { let mut b = Array1::from_elem(1, usize::MAX); model.predict_inplace(&one, &mut b); b.to_vec() })),
+            ];
+            for (form, r) in got {
+                cnt.add("predict_one_row_batch_evaluations", 1);
+                if r.as_ref().ok() != Some(&vec![want]) {
+                    viols.push(Violation::new(
+                        "kmeans.predict.calling_form_dependence",
+                        format!("one-row batch {:?} through the {} form gives {:?}, the same row inside the full batch gets {}", p64[i], form, r, want),
+                        at2(json!({"form": form, "point": p64[i], "one_row": true})),
+                    ));
+                }
+            }
+        }
+    }
     // ---- in-place entry points on buffers that do NOT come fresh from default_target: pre-filled
     // with poison, pre-filled with a wrong (but valid) label everywhere, reused from another batch
-    {
+    if extra_forms {
         let k = env.k;
         let mut bufs: Vec<(&str, Array1<usize>)> = vec![
             ("poisoned_with_usize_max", Array1::from_elem(batch.len(), usize::MAX)),
@@ -612,7 +698,7 @@ fn check_assign<F: Float, D: Distance<F>, S: Data<Elem = F>>(
         }
         let single = guarded(|| model.predict(&points.row(i)));
         // single observation written into a poisoned / wrong scalar
-        if let Ok(want) = single {
+        if let (Ok(want), true) = (single.clone(), extra_forms) {
             for start in [usize::MAX, (want + 1) % k.max(2)] {
                 let mut slot = start;
                 cnt.add("predict_inplace_single_evaluations", 1);
@@ -886,7 +972,17 @@ fn nontrivial(env_pts: &[Vec<f64>], k: usize) -> bool {
 // memory layouts: the same logical matrix behind different strides
 // ------------------------------------------------------------------------------------------
 
-const LAYOUTS: [&str; 4] = ["column_major_owned", "transposed_view_of_feature_major", "reversed_row_view", "every_second_row_view"];
+const LAYOUTS: [&str; 8] = [
+    "column_major_owned",
+    "transposed_view_of_feature_major",
+    "reversed_row_view",
+    "every_second_row_view",
+    // reversed FEATURE axis: every row has stride -1 (and is "contiguous in memory order")
+    "reversed_feature_view",
+    "reversed_feature_owned",
+    "reversed_rows_and_features_view",
+    "reversed_rows_and_features_owned",
+];
 
 /// Owns the backing storage of one layout variant of a logical n x d matrix.
 struct Laid<F: Float> {
@@ -906,6 +1002,12 @@ impl<F: Float> Laid<F> {
             "reversed_row_view" => Array2::from_shape_fn((n, d), |(i, j)| m[(n - 1 - i, j)]),
             // 2n rows, the odd ones hold poison (NaN), used through a step-2 view
             "every_second_row_view" => Array2::from_shape_fn((2 * n, d), |(i, j)| if i % 2 == 0 { m[(i / 2, j)] } else { F::nan() }),
+            // features stored back to front, used through a view with stride -1 along the feature axis
+            "reversed_feature_view" => Array2::from_shape_fn((n, d), |(i, j)| m[(i, d - 1 - j)]),
+            "reversed_rows_and_features_view" => Array2::from_shape_fn((n, d), |(i, j)| m[(n - 1 - i, d - 1 - j)]),
+            // to_owned() of such a view keeps the negative strides: an OWNED array with reversed axes
+            "reversed_feature_owned" => Array2::from_shape_fn((n, d), |(i, j)| m[(i, d - 1 - j)]).slice(s![.., ..;-1]).to_owned(),
+            "reversed_rows_and_features_owned" => Array2::from_shape_fn((n, d), |(i, j)| m[(n - 1 - i, d - 1 - j)]).slice(s![..;-1, ..;-1]).to_owned(),
             _ => panic!("bad layout"),
         };
         Laid { kind, backing }
@@ -916,6 +1018,9 @@ impl<F: Float> Laid<F> {
             "transposed_view_of_feature_major" => self.backing.t(),
             "reversed_row_view" => self.backing.slice(s![..;-1, ..]),
             "every_second_row_view" => self.backing.slice(s![..;2, ..]),
+            "reversed_feature_view" => self.backing.slice(s![.., ..;-1]),
+            "reversed_rows_and_features_view" => self.backing.slice(s![..;-1, ..;-1]),
+            "reversed_feature_owned" | "reversed_rows_and_features_owned" => self.backing.view(),
             _ => panic!("bad layout"),
         }
     }
@@ -950,12 +1055,52 @@ fn layout_sweep<F: Float, D: Distance<F>>(env: &Env<F>, case: &Case, init_f: &Ar
         };
         let std_obs = observe(&std_model);
         let std_probe: Vec<_> = all_pts.iter().map(|(_, a, _)| probe(&std_model, a.view())).collect();
-        for kind in LAYOUTS {
+        // the other calling forms of fit: dataset owning its records, dataset carrying targets
+        for form in ["dataset_owning_the_records", "dataset_with_targets"] {
+            cnt.add("fits", 1);
+            cnt.add("fit_calling_form_fits", 1);
+            let at = json!({"budget": m, "layout": form});
+            let r = guarded(|| {
+                let p = KMeans::params_with(k, Xoshiro256Plus::seed_from_u64(42), dist.clone())
+                    .n_runs(1)
+                    .max_n_iterations(m as u64)
+                    .tolerance(F::cast(case.tol))
+                    .init_method(KMeansInit::Precomputed(init_f.clone()));
+                if form == "dataset_owning_the_records" {
+                    p.fit(&DatasetBase::from(env.data.clone())).map_err(|e| e.to_string())
+                } else {
+                    p.fit(&DatasetBase::new(env.data.view(), Array1::<usize>::from_elem(env.data.nrows(), 7))).map_err(|e| e.to_string())
+                }
+            });
+            match r {
+                Ok(Ok(model)) => {
+                    if obs_bits(&observe(&model)) != obs_bits(&std_obs) {
+                        let o = observe(&model);
+                        viols.push(Violation::new(
+                            "kmeans.fit.calling_form_dependence",
+                            format!("budget {}: fit on a {} gives centroids {:?} counts {:?} inertia {}, fit on a dataset viewing the same records gives {:?} {:?} {}", m, form, o.flat, o.counts, o.inertia, std_obs.flat, std_obs.counts, std_obs.inertia),
+                            env.cj(at),
+                        ));
+                    }
+                }
+                Ok(Err(e)) => viols.push(Violation::new("kmeans.fit.unexpected_error", format!("fit on a {} returned Err({})", form, e), env.cj(at))),
+                Err(pn) => viols.push(Violation::new("kmeans.fit.panic", format!("fit on a {} panicked: {}", form, pn), env.cj(at))),
+            }
+        }
+        // one-feature data: a reversed feature axis of length 1 is the same memory; kept for the small sets only
+        let n_layouts = if env.d == 1 && env.pts.len() > 3 { 4 } else { LAYOUTS.len() };
+        for kind in LAYOUTS.into_iter().take(n_layouts) {
             cnt.add("fits", 1);
             cnt.add("layout_fits", 1);
             let at = json!({"budget": m, "layout": kind});
             let laid = Laid::new(kind, &env.data);
-            let init_v = if kind == "column_major_owned" { Array2::from_shape_fn(init_f.dim().f(), |ij| init_f[ij]) } else { init_f.clone() };
+            // the Precomputed centroids are an owned array: column-major / reversed-axes owned where the data are
+            let init_v = match kind {
+                "column_major_owned" => Array2::from_shape_fn(init_f.dim().f(), |ij| init_f[ij]),
+                "reversed_feature_view" | "reversed_feature_owned" => Laid::new("reversed_feature_owned", init_f).backing,
+                "reversed_rows_and_features_view" | "reversed_rows_and_features_owned" => Laid::new("reversed_rows_and_features_owned", init_f).backing,
+                _ => init_f.clone(),
+            };
             let rng = Xoshiro256Plus::seed_from_u64(42);
             let model = match fit_once(laid.view(), k, KMeansInit::Precomputed(init_v), rng, dist.clone(), 1, m as u64, case.tol) {
                 Ok(x) => x,
@@ -1026,7 +1171,13 @@ fn layout_sweep<F: Float, D: Distance<F>>(env: &Env<F>, case: &Case, init_f: &Ar
                 }
                 // and the arg-min oracle on the layout-fitted model with layout inputs
                 let v = laid_p.view();
-                check_assign(env, &model, &obs, &v, p64, which, &at, viols, cnt);
+                // (the one-row-batch forms, keyed on the name "new", run for one re-laid-out variant only)
+                let label = match (*which, kind) {
+                    ("new", "reversed_feature_view") => "new",
+                    ("new", _) => "new (re-laid-out)",
+                    _ => "training",
+                };
+                check_assign(env, &model, &obs, &v, p64, label, &at, viols, cnt);
             }
         }
     }
@@ -1741,9 +1892,10 @@ fn main() {
          per case the real fit runs with max_n_iterations(m) and n_runs(1), n_runs(2), n_runs(3) (same start for every restart, so the same answer is demanded) for every m = 1..={b} and is compared with the set of states the reference m_k-means step reaches after m transitions (ties branch). \
          seeded cases = dataset (id image; all images for n<=3) x float x metric x k x {{random, kmeans++, kmeans||}} x seed 0..{s} x iteration cap {caps:?}, tolerance 1e-4; per case single-restart fits of restart 1..={r} and fits with n_runs = 2..={r} from the same seed; for L2 and every (dataset, initialiser, seed) additionally fits with n_runs in {{2, {r}}} for every budget 1..={lad}, cost of the returned centroids compared along the budgets. \
          replicated cases = every set of 2..3 distinct points of {{0..4}} (1-D) and of {{(0,0),(0,1),(1,0),(1,1),(2,2)}} (2-D) under the images id and +1e3, every point repeated so that n is one of {{1024, 1025, 2049, 3000}} (thorough: also 1023, 2048, 4097; remainder to the first point), rows contiguous per point or round-robin, f64, L2 (thorough: + L1), k = 1..min(p,3), every k-subset of the distinct points as Precomputed start, budgets 1..=3, n_runs(1): same lock-step oracle with the reference step working on (point, multiplicity) pairs (copies of a point are identical rows and go to the same centroid), predict / transform on the distinct points. \
-         wide cases = 3 point sets of 6 points (hand-built axes set, generic-position lattice + jitter, sparse) in d = 16, 17, 33, 40 features x {{L2, L1, Linf, Lp(3)}} x f64 (+ f32 for d = 17) x k = 2..3 x every k-subset of the points as Precomputed start, budgets 1..=2, n_runs 1..3, same oracles (queries: pairwise midpoints, origin, far point). \
-         layout sweep (trajectory cases under the identity image with tolerance 1e-4, replicated f64 contiguous cases with n = 1025 (thorough: + 4097), every wide case): for the budgets 1 and max the fit is repeated with the training matrix as column-major owned array (Precomputed centroids column-major too), transposed view of a feature-major array, reversed-row view of a reversed copy, every-second-row view of a 2n-row array whose odd rows are NaN; centroids / counts / inertia must equal the standard-layout fit, predict (batch, single row) / transform of both models on the equally re-laid-out training and query points must equal the standard-layout answers and pass the arg-min oracle. replicated cases also in f32 under the identity image (quick: n = 1025). \
+         wide cases = 3 point sets of 6 points (hand-built axes set, generic-position lattice + jitter, sparse) in d = 4, 5, 6, 7, 9, 16, 17, 33, 40 features, at scale 1 and scale 0.125 (sub-unit distances), x {{L2, L1, Linf, Lp(3)}} x f64 (+ f32 for d = 5, 17) x k = 2..3 x every k-subset of the points as Precomputed start, budgets 1..=2, n_runs 1..3, same oracles (queries: pairwise midpoints, origin, far point). \
+         layout sweep (trajectory cases under the identity image with tolerance 1e-4, replicated f64 contiguous cases with n = 1025 (thorough: + 4097), every wide case): for the budgets 1 and max the fit is repeated with the training matrix as column-major owned array (Precomputed centroids column-major too), transposed view of a feature-major array, reversed-row view of a reversed copy, every-second-row view of a 2n-row array whose odd rows are NaN, reversed FEATURE axis and reversed rows + features, each as a view and as an owned array with negative strides (to_owned of the view; the Precomputed centroids get the same reversed-axes owned form; one-feature sets of more than 3 rows skip these four), and through a dataset that owns its records and a dataset that carries targets; centroids / counts / inertia must equal the standard-layout fit, predict (batch, single row) / transform of both models on the equally re-laid-out training and query points must equal the standard-layout answers and pass the arg-min oracle. replicated cases also in f32 under the identity image (quick: n = 1025). \
          builder cases = a rotation of the 4-point 1-D multisets and 3x3-lattice subsets x {{f64 L2, f32 L2, f64 L1, f64 Lp(3)}} x init {{Precomputed, Random, k-means++}} x n_runs {{1,3}} x tolerance {{1e-4,1e-2}} x max_n_iterations {{1,2,300}}, k = 2: from KMeans::params_with every one of the 24 orders of the setters n_runs / tolerance / max_n_iterations / init_method, each order additionally with a decoy write of one field (at the very beginning and directly before its real write) and with decoy writes of all four fields first; from KMeans::params_with_rng and KMeans::params (L2) every 7th of those sequences; fresh builders must show the documented defaults, the getters of check_ref() must equal the final logical parameter set, the parameter struct must equal the canonically built one and the fit must be bit-identical to the canonical order (KMeans::params only with a Precomputed start: its generator is not ours). \
+         every batch predict is additionally repeated through the other calling forms (owned array, owned dataset, &dataset, owned dataset of an owned copy, &view of a dataset): labels must equal predict(&array) exactly and the records must be handed back unchanged; every query row additionally as a ONE-ROW batch through each form. \
          every batch predict is additionally repeated through predict_inplace into a buffer poisoned with usize::MAX, a buffer pre-filled with wrong labels and a buffer reused from a differently ordered batch, every single-row predict through predict_inplace into a poisoned and into a wrong slot: must equal the plain form exactly. \
          evaluations = fits of the real code; non-trivial = fits with k >= 2 on data with >= 2 distinct rows; every fitted model additionally gets predict (batch, single row) / transform evaluations on its training rows and on the lattice + half-lattice + far query points (first and last fit of a case). \
          states / transitions = distinct reference states (centroid set, stopped flag) per level / reference steps.",
@@ -1941,7 +2093,8 @@ fn main() {
     // centroids into different 16-feature blocks so that the true nearest centroid differs from what any
     // block-wise accumulation would pick.
     let mut n_wide = 0u64;
-    for &dw in &[16usize, 17, 33, 40] {
+    for &dw in &[4usize, 5, 6, 7, 9, 16, 17, 33, 40] {
+      for wscale in [1.0f64, 0.125] {
         let unit = |pairs: &[(usize, f64)]| -> Vec<f64> {
             let mut v = vec![0.0; dw];
             for &(j, x) in pairs {
@@ -1984,6 +2137,8 @@ fn main() {
                 .collect(),
         ));
         for (fam, pts) in &wsets {
+            // sub-unit image: every coordinate x 0.125 (exact in binary), distances well below 1
+            let pts: &Vec<Vec<f64>> = &pts.iter().map(|r| r.iter().map(|&x| x * wscale).collect()).collect();
             let np = pts.len();
             // queries: every pairwise midpoint, the origin, a far point
             let mut queries: Vec<Vec<f64>> = Vec::new();
@@ -1994,14 +2149,14 @@ fn main() {
             }
             queries.push(vec![0.0; dw]);
             queries.push((0..dw).map(|j| if j % 2 == 0 { 100.0 } else { -75.0 }).collect());
-            let floats: Vec<&str> = if dw == 17 { vec!["f64", "f32"] } else { vec!["f64"] };
+            let floats: Vec<&str> = if dw == 17 || dw == 5 { vec!["f64", "f32"] } else { vec!["f64"] };
             for float in floats {
                 for metric in ["L2", "L1", "Linf", "Lp3"] {
                     for k in 2..=3usize {
                         for sub in en::k_subsets(np, k) {
                             cases.push(Case {
                                 kind: "wide".into(),
-                                family: format!("{}/d{}", fam, dw),
+                                family: format!("{}/d{}/x{}", fam, dw, wscale),
                                 data: pts.clone(),
                                 float: float.into(),
                                 metric: metric.into(),
@@ -2027,6 +2182,7 @@ fn main() {
             }
         }
     }
+      }
     ctx.extra("cases_wide", json!(n_wide));
 
     // ---------------- builder family: setter orders, decoy-then-real writes, constructors
